@@ -65,8 +65,9 @@ type c06Gov struct {
 }
 
 type c06Op struct {
-	K      string        `json:"k"` // submit | activate | delegate | undelegate | propose | vote | end
+	K      string        `json:"k"` // submit | activate | delegate | undelegate | propose | vote | feedvote | end
 	Gov    *c06Gov       `json:"gov,omitempty"`
+	Factor []int64       `json:"factor,omitempty"` // feedvote: the delegator's signal powers (x step), index = signal, 0 = none
 	Val    int           `json:"val,omitempty"`
 	TsOff  int64         `json:"tsoff,omitempty"` // msg.Timestamp - block time
 	Prices []c06SigPrice `json:"prices,omitempty"`
@@ -280,6 +281,53 @@ func genC06Chain(rt *rapid.T) c06ChainCase {
 		end(1)
 		end(1)
 	}
+	// The delegator re-votes so that the lowest ranked signal becomes the highest; the next current-feeds update lists the
+	// same signals in another order; then validators send PARTIAL reports while their older prices for the other
+	// signals are still fresh. All ordinary ops.
+	gVote := make([]int64, nsig)
+	reorderFeeds := func() bool {
+		if nsig < 2 || c.UpdateEvery > 7 {
+			return false
+		}
+		if len(c.Ops) > 0 && c.Ops[len(c.Ops)-1].K != "end" {
+			end(int(c.Cooldown))
+		}
+		c.Ops = append(c.Ops, c06Op{K: "delegate", Val: 0, Amt: 1_000_000})
+		end(int(c.Cooldown))
+		for i := 0; i < n; i++ {
+			if gen.Chance(rt, "rfrep", 9, 10) {
+				op := genC06Submit(rt, nsig, i, c.Discrepancy)
+				c.Ops = append(c.Ops, op)
+			}
+		}
+		lo, hi := 0, int64(0)
+		for i := 0; i < nsig; i++ {
+			if t := c.SigFactor[i] + gVote[i]; t > hi {
+				hi = t
+			}
+			if c.SigFactor[i]+gVote[i] < c.SigFactor[lo]+gVote[lo] || (c.SigFactor[i]+gVote[i] == c.SigFactor[lo]+gVote[lo] && gen.Chance(rt, "rflo", 1, 2)) {
+				lo = i
+			}
+		}
+		gVote[lo] = hi + 1 - c.SigFactor[lo]
+		c.Ops = append(c.Ops, c06Op{K: "feedvote", Factor: append([]int64(nil), gVote...)})
+		end(1)
+		for h%c.UpdateEvery != 0 {
+			end(1)
+		}
+		for i := 0; i < n; i++ {
+			if gen.Chance(rt, "rfpart", 4, 5) {
+				sp := c06SigPrice{Sig: gen.Uniform(rt, "rfsig", nsig), St: gen.Pick(rt, "st", 0, 12, 10, 78)}
+				if sp.St == ref.FeedEntryAvailable {
+					sp.Price = gen.OneOf(rt, "price", c06ChainPrices...)
+				}
+				c.Ops = append(c.Ops, c06Op{K: "submit", Val: i, Prices: []c06SigPrice{sp}})
+			}
+		}
+		end(1)
+		end(1)
+		return true
+	}
 	// any other change of the feeds parameters
 	changeParams := func() {
 		g := &c06Gov{}
@@ -329,9 +377,16 @@ func genC06Chain(rt *rapid.T) c06ChainCase {
 	if gen.Chance(rt, "bfscen", 3, 10) {
 		bondFlipAt = gen.Uniform(rt, "bfscenat", nops)
 	}
+	reorderAt := -1
+	if gen.Chance(rt, "rfscen", 3, 10) {
+		reorderAt = gen.Uniform(rt, "rfscenat", nops)
+	}
 	for i := 0; i < nops; i++ {
 		if i == bondFlipAt {
 			bondFlip()
+		}
+		if i == reorderAt {
+			reorderFeeds()
 		}
 		if i == scenarioAt && lowerMaxInterval() {
 			continue
@@ -524,9 +579,11 @@ func runC06Chain(c c06ChainCase) *pbt.Verdict {
 		model[i] = map[string]c06Report{}
 	}
 	var pending []c06Op
-	curParams := fp               // the feeds parameters in force (statistics and building the next proposal only)
-	var proposals []*c06Proposal  // in their voting period
-	prevBonded := make([]bool, n) // bonded at the end of the previous block
+	curParams := fp                 // the feeds parameters in force (statistics and building the next proposal only)
+	var proposals []*c06Proposal    // in their voting period
+	lastReorder := int64(0)         // height of the last block that re-ordered the current feeds without changing their number
+	lastSubmitH := make([]int64, n) // height of each validator's last accepted report
+	prevBonded := make([]bool, n)   // bonded at the end of the previous block
 	for i := range prevBonded {
 		prevBonded[i] = true
 	}
@@ -546,8 +603,10 @@ func runC06Chain(c c06ChainCase) *pbt.Verdict {
 			activeBefore[i] = ch.App.OracleKeeper.GetValidatorStatus(pre, a.Val).IsActive
 		}
 		preFeeds := map[string]bool{} // the current feeds the transactions of this block see
+		var preOrder []string
 		for _, f := range ch.App.FeedsKeeper.GetCurrentFeeds(pre).Feeds {
 			preFeeds[f.SignalID] = true
+			preOrder = append(preOrder, f.SignalID)
 		}
 		var txs [][]byte
 		var ops []c06Op
@@ -575,6 +634,15 @@ func runC06Chain(c c06ChainCase) *pbt.Verdict {
 			case "delegate":
 				msg = stakingtypes.NewMsgDelegate(ch.Users[1].Addr.String(), a.Val.String(), sdk.NewInt64Coin("uband", o.Amt))
 				a = ch.Users[1]
+			case "feedvote": // the delegator (re)votes; its powers add to the genesis vote of user 0
+				var sg []feedstypes.Signal
+				for i, f := range o.Factor {
+					if i < nsig && f > 0 {
+						sg = append(sg, feedstypes.NewSignal(c06SigName(i), f*c06Step))
+					}
+				}
+				a = ch.Users[1]
+				msg = feedstypes.NewMsgVote(a.Addr.String(), sg)
 			case "undelegate":
 				// The self delegation never drops to zero: a validator without shares is deleted once unbonded, and
 				// chainsim keeps listing every genesis validator in the last-commit votes ("validator does not
@@ -682,7 +750,15 @@ func runC06Chain(c c06ChainCase) *pbt.Verdict {
 			}
 			stat["tx_ok_"+o.K]++
 			switch o.K {
+			case "feedvote":
+				feedSetFree = true // which signals qualify (and how many) is C07's subject
+				classes["feeds-vote-changed"] = true
 			case "submit":
+				if len(o.Prices) < len(preFeeds) && lastReorder > 0 && lastSubmitH[o.Val%n] > 0 && lastSubmitH[o.Val%n] <= lastReorder {
+					classes["partial-report-after-feeds-reordered"] = true
+					stat["partial_report_after_feeds_reordered"]++
+				}
+				lastSubmitH[o.Val%n] = res.Height
 				for id, r := range model[o.Val%n] {
 					if !preFeeds[id] {
 						r.ambiguous = true
@@ -770,6 +846,20 @@ func runC06Chain(c c06ChainCase) *pbt.Verdict {
 		lastBonded = tbt.BigInt()
 		quorumRounded := new(big.Int).Mul(quorum, c06E18).Cmp(new(big.Int).Mul(tbt.BigInt(), qE18)) != 0
 		cf := ch.App.FeedsKeeper.GetCurrentFeeds(ctx)
+		if len(cf.Feeds) == len(preOrder) {
+			same, moved := true, false
+			for i, f := range cf.Feeds {
+				same = same && preFeeds[f.SignalID]
+				moved = moved || f.SignalID != preOrder[i]
+			}
+			if same && moved {
+				lastReorder = res.Height
+				classes["feeds-reordered-same-set"] = true
+			} else if moved {
+				lastReorder = res.Height
+				classes["feeds-replaced-same-count"] = true
+			}
+		}
 		if !feedSetFree && len(cf.Feeds) != nsig {
 			v.Failf("harness", "expected %d current feeds at height %d, store has %d", nsig, res.Height, len(cf.Feeds))
 			return false
